@@ -287,6 +287,11 @@ theorem canon_rwStep_congr (g g' : LGraph) {r r' w w' : List Node} (hc : canon g
       rintro ⟨a, b⟩
       simp only [AStmt.mem_product, hr.mem_iff, hw.mem_iff]
 
+/-- `canon` under the error monad of the fold -/
+def canonE : Except Err LGraph → Except Err (Canon Node)
+  | .ok g => .ok (canon g)
+  | .error e => .error e
+
 /-! ### the role sets are functions of the order‑free content -/
 
 theorem mem_union (a b : List Node) (x : Node) : x ∈ Assemble.union a b ↔ x ∈ a ∨ x ∈ b := by
